@@ -200,7 +200,7 @@ const SweepIndex& sweep_index(const std::string& part, const std::string& tier) 
     std::string bytes = base_bytes(b);
     int64_t n;
     if (part == "sweep") n = 2 * static_cast<int64_t>(bytes.size() + 1);       // trunc@k and eio@k for k in 0..size
-    else { TzLayout L = layout_of(bytes); n = 8 * static_cast<int64_t>(L.ok ? std::min(L.tail, bytes.size()) : std::min<size_t>(bytes.size(), 44)); }  // every bit up to the end of the tables
+    else n = 8 * static_cast<int64_t>(bytes.size());   // every bit of the file: both headers, both blocks, indicator bytes and the footer
     si.total += n;
     si.cum.push_back(si.total);
   }
